@@ -83,6 +83,84 @@ fn apply1(name: &str, z: Cmplx) -> Cmplx {
         other => { eprintln!("TOOL-ERROR cfun: unknown unary function {}", other); std::process::exit(2) }
     }
 }
+// ------------------------------------------------------------------ interleaved evaluation of the whole catalogue on one z
+/// the unary functions of apply1, in catalogue order
+const UNARY: [&str; 28] = ["sqrt", "exp", "ln", "sin", "cos", "tan", "sec", "csc", "cot", "asin", "acos", "atan", "asec", "acsc", "acot",
+    "sinh", "cosh", "tanh", "sech", "csch", "coth", "asinh", "acosh", "atanh", "asech", "acsch", "acoth", "conj"];
+/// functions that decompose their argument into modulus and phase (ComplexFun.Decomp)
+const DECOMP: [&str; 20] = ["sqrt", "ln", "log", "pow", "powf", "arg", "abs", "polar", "asin", "acos", "atan", "asinh", "acosh", "atanh",
+    "asec", "acsc", "acot", "asech", "acsch", "acoth"];
+#[derive(Clone, Copy, PartialEq, Debug)]
+enum Call { Un(usize), Abs, Arg, AbsSqr, Polar, Pow(usize), Powf(usize), Log(usize) }
+fn call_name(cl: Call) -> &'static str {
+    match cl { Call::Un(i) => UNARY[i], Call::Abs => "abs", Call::Arg => "arg", Call::AbsSqr => "abs_sqr", Call::Polar => "polar",
+               Call::Pow(_) => "pow", Call::Powf(_) => "powf", Call::Log(_) => "log" }
+}
+fn decomp_idx(cl: Call) -> Option<usize> { let n = call_name(cl); DECOMP.iter().position(|d| *d == n) }
+/// adjacency coverage over a pass of the obligation list (reset by the "start" marker, reported by "end")
+static COVER: std::sync::Mutex<[bool; 400]> = std::sync::Mutex::new([false; 400]);
+/// every value of the catalogue at one z, all computed in ONE back-to-back sequence of calls
+pub struct Table { un: Vec<Cmplx>, abs: f64, arg: f64, abs_sqr: f64, polar: Cmplx, pw: Vec<Cmplx>, pf: Vec<Cmplx>, lg: Vec<Cmplx>,
+                   ws: Vec<Cmplx>, xs: Vec<f64>, bs: Vec<Cmplx>, repeat_ok: bool }
+impl Table {
+    fn get(&self, name: &str) -> Cmplx {
+        match UNARY.iter().position(|u| *u == name) { Some(i) => self.un[i],
+            None => { eprintln!("TOOL-ERROR cfun: {} is not in the evaluation table", name); std::process::exit(2) } }
+    }
+}
+fn same_bits(a: Cmplx, b: Cmplx) -> bool {
+    let eq = |x: f64, y: f64| x.to_bits() == y.to_bits() || (x.is_nan() && y.is_nan());
+    eq(a.real, b.real) && eq(a.imag, b.imag)
+}
+fn do_call(cl: Call, z: Cmplx, t: &Table) -> Cmplx {
+    match cl { Call::Un(i) => apply1(UNARY[i], z), Call::Abs => c(z.abs(), 0.0), Call::Arg => c(z.arg(), 0.0), Call::AbsSqr => c(z.abs_sqr(), 0.0),
+               Call::Polar => Cmplx::polar(z.abs(), z.arg()), Call::Pow(j) => z.pow(&t.ws[j]), Call::Powf(j) => z.powf(t.xs[j]), Call::Log(j) => z.log(t.bs[j]) }
+}
+/// the sequence of calls: mode 0 catalogue order, 1 reversed, 2 seeded shuffle, 3 seeded shuffle with a chosen ordered
+/// pair of decomposition-based functions moved to the front (the pair cycles through all 400 with `key`)
+fn call_order(nw: usize, nx: usize, nb: usize, mode: u64, key: u64) -> Vec<Call> {
+    use rand::seq::SliceRandom;
+    let mut v: Vec<Call> = vec![Call::Un(0)];
+    v.extend((0..nw).map(Call::Pow)); v.extend((0..nx).map(Call::Powf));
+    v.push(Call::Un(1)); v.push(Call::Un(2)); v.extend((0..nb).map(Call::Log));
+    v.push(Call::Polar); v.push(Call::Abs); v.push(Call::Arg); v.push(Call::AbsSqr);
+    v.extend((3..UNARY.len()).map(Call::Un));
+    match mode % 4 {
+        0 => {}
+        1 => v.reverse(),
+        2 => v.shuffle(&mut rng(key, 771)),
+        _ => {
+            v.shuffle(&mut rng(key, 772));
+            let (a, b) = ((key % 20) as usize, ((key / 20) % 20) as usize);
+            let pick = |v: &Vec<Call>, d: usize, skip: Option<usize>| -> Option<usize> {
+                let c: Vec<usize> = (0..v.len()).filter(|i| decomp_idx(v[*i]) == Some(d) && Some(*i) != skip).collect();
+                if c.is_empty() { None } else { Some(c[(key / 400) as usize % c.len()]) } };
+            if let Some(ia) = pick(&v, a, None) { let ca = v.remove(ia); v.insert(0, ca);
+                if let Some(ib) = pick(&v, b, Some(0)) { let cb = v.remove(ib); v.insert(1, cb); } }
+        }
+    }
+    v
+}
+/// call everything on z in the given order, each function twice in a row (results must be bit-identical)
+pub fn run_pass(z: Cmplx, ws: Vec<Cmplx>, xs: Vec<f64>, bs: Vec<Cmplx>, mode: u64, key: u64) -> Table {
+    let nan = c(f64::NAN, f64::NAN);
+    let mut t = Table { un: vec![nan; UNARY.len()], abs: f64::NAN, arg: f64::NAN, abs_sqr: f64::NAN, polar: nan, pw: vec![nan; ws.len()], pf: vec![nan; xs.len()],
+                        lg: vec![nan; bs.len()], ws, xs, bs, repeat_ok: true };
+    let order = call_order(t.ws.len(), t.xs.len(), t.bs.len(), mode, key);
+    let mut cover = COVER.lock().unwrap();
+    let mut prev: Option<usize> = None;
+    for cl in order {
+        let r1 = do_call(cl, z, &t); let r2 = do_call(cl, z, &t);
+        if !same_bits(r1, r2) { t.repeat_ok = false; if std::env::var("CFUN_DEBUG").is_ok() { eprintln!("repeat differs: {:?} z={:?} {:?} {:?}", cl, z, r1, r2); } }
+        match cl { Call::Un(i) => t.un[i] = r1, Call::Abs => t.abs = r1.real, Call::Arg => t.arg = r1.real, Call::AbsSqr => t.abs_sqr = r1.real, Call::Polar => t.polar = r1,
+                   Call::Pow(j) => t.pw[j] = r1, Call::Powf(j) => t.pf[j] = r1, Call::Log(j) => t.lg[j] = r1 }
+        let d = decomp_idx(cl);
+        if let Some(k) = d { cover[k * 20 + k] = true; if let Some(p) = prev { cover[p * 20 + k] = true; } }
+        prev = d;
+    }
+    t
+}
+
 fn real_fn(name: &str, x: f64) -> f64 {
     match name {
         "exp" => x.exp(), "ln" => x.ln(), "sqrt" => x.sqrt(), "sin" => x.sin(), "cos" => x.cos(), "tan" => x.tan(),
@@ -115,65 +193,59 @@ const LOG_B: [(f64, f64); 16] = [(2.0, 0.0), (10.0, 0.0), (0.5, 0.0), (0.0, 1.0)
     (-1.0, 0.0), (-0.5, 0.0), (0.0, -1.0), (0.0, 2.0), (0.0, -0.25), (0.6, 0.8), (-0.8, 0.6), (-2.0, -0.0), (-0.0, 3.0)];
 
 /// all instances of relation `rel` at the point z (several for the two-argument functions)
-fn eval_rel(rel: &Value, range: &Value, z: Cmplx, rng: &mut StdRng, nrand: usize) -> Vec<Eval> {
+fn eval_rel(rel: &Value, range: &Value, z: Cmplx, t: &Table) -> Vec<Eval> {
     let kind = gets(rel, "kind"); let f = gets(rel, "f"); let g = gets(rel, "g"); let h = gets(rel, "h");
     let part = gets(range, "part");
     let r = guarded(|| -> Vec<Eval> {
         let mut out = Vec::new();
         match kind {
-            "series" => { let got = apply1(f, z); let want = series_ref(f, z);
+            "series" => { let got = t.get(f); let want = series_ref(f, z);
                 out.push(if cfinite(got) { ev(cdist(cd(got), want), &[want.abs()]) } else { bad() }); }
-            "axis" => { let got = apply1(f, z); let want = real_fn(f, z.real);
+            "axis" => { let got = t.get(f); let want = real_fn(f, z.real);
                 let mut e = if cfinite(got) && want.is_finite() { ev((got.real - want).hypot(got.imag), &[want.abs()]) } else { bad() };
                 e.range_val = Some(part_of(got, part)); out.push(e); }
-            "quot" => { let got = apply1(f, z); let (a, b) = (apply1(g, z), apply1(h, z)); let want = cd(a).div(cd(b));
+            "quot" => { let got = t.get(f); let (a, b) = (t.get(g), t.get(h)); let want = cd(a).div(cd(b));
                 out.push(if cfinite(got) && cfinite(a) && cfinite(b) { ev_rel(cdist(cd(got), want), want.abs()) } else { bad() }); }
-            "recip" => { let got = apply1(f, z); let a = apply1(g, z); let want = cone().div(cd(a));
+            "recip" => { let got = t.get(f); let a = t.get(g); let want = cone().div(cd(a));
                 out.push(if cfinite(got) && cfinite(a) { ev_rel(cdist(cd(got), want), want.abs()) } else { bad() }); }
-            "rinv" => { let w = apply1(f, z); let back = apply1(g, w);
+            "rinv" => { let w = t.get(f); let back = apply1(g, w);
                 let mut e = if cfinite(w) && cfinite(back) { ev(cdist(cd(back), cd(z)), &[z.abs()]) } else { bad() };
                 e.range_val = Some(part_of(w, part)); out.push(e); }
-            "pyth_plus" | "pyth_minus" => { let (a, b) = (apply1(g, z), apply1(h, z)); let (a2, b2) = (cd(a).mul(cd(a)), cd(b).mul(cd(b)));
+            "pyth_plus" | "pyth_minus" => { let (a, b) = (t.get(g), t.get(h)); let (a2, b2) = (cd(a).mul(cd(a)), cd(b).mul(cd(b)));
                 let s = if kind == "pyth_plus" { a2.add(b2) } else { a2.sub(b2) };
                 out.push(if cfinite(a) && cfinite(b) { ev(cdist(s, cone()), &[a2.abs(), b2.abs()]) } else { bad() }); }
-            "sqrt_sq" => { let w = z.sqrt(); let mut e = if cfinite(w) { ev(cdist(cd(w).mul(cd(w)), cd(z)), &[z.abs()]) } else { bad() };
+            "sqrt_sq" => { let w = t.get("sqrt"); let mut e = if cfinite(w) { ev(cdist(cd(w).mul(cd(w)), cd(z)), &[z.abs()]) } else { bad() };
                 e.range_val = Some(part_of(w, part)); out.push(e); }
-            "pow_def" => { let l = ln_dd(z);
-                let mut ws: Vec<(f64, f64)> = POW_W.to_vec();
-                for _ in 0..nrand { let m: f64 = rng.gen_range(0.0..3.0); let t: f64 = rng.gen_range(-PI..PI); ws.push((m * t.cos(), m * t.sin())); }
-                for (wr, wi) in ws { let w = c(wr, wi); let got = z.pow(&w);
+            "pow_def" | "pow_near" => { let l = ln_dd(z);
+                for (j, w) in t.ws.iter().enumerate() { let got = t.pw[j];
                     let mut best = bad();
-                    for lv in cut_limits(z, l) { let want = exp_dd(cd(w).mul(lv));
+                    for lv in cut_limits(z, l) { let want = exp_dd(cd(*w).mul(lv));
                         let e = if cfinite(got) { ev(cdist(cd(got), want), &[want.abs()]) } else { bad() };
                         if e.err / e.scale < best.err / best.scale || !best.err.is_finite() { best = e; } }
                     out.push(best); } }
-            "powf_def" => { let l = ln_dd(z);
-                let mut xs: Vec<f64> = POWF_X.to_vec();
-                for _ in 0..nrand { xs.push(rng.gen_range(-3.0..3.0)); }
-                for x in xs { let got = z.powf(x);
+            "powf_def" | "powf_near" => { let l = ln_dd(z);
+                for (j, x) in t.xs.iter().enumerate() { let got = t.pf[j];
                     let mut best = bad();
-                    for lv in cut_limits(z, l) { let want = exp_dd(cscale(lv, x));
+                    for lv in cut_limits(z, l) { let want = exp_dd(cscale(lv, *x));
                         let e = if cfinite(got) { ev(cdist(cd(got), want), &[want.abs()]) } else { bad() };
                         if e.err / e.scale < best.err / best.scale || !best.err.is_finite() { best = e; } }
                     out.push(best); } }
-            "log_def" => { let lz = z.ln();
-                let mut bs: Vec<(f64, f64)> = LOG_B.to_vec();
-                for _ in 0..nrand { let m: f64 = 10f64.powf(rng.gen_range(-3.0..1.0)); let t: f64 = rng.gen_range(-PI..PI); bs.push((m * t.cos(), m * t.sin())); }
-                for (br, bi) in bs { let b = c(br, bi); let lb = b.ln(); if lb.abs() < 0.1 { continue; }
-                    let got = z.log(b); let want = cd(lz).div(cd(lb));
+            "log_def" => { let lz = t.get("ln");
+                for (j, b) in t.bs.iter().enumerate() { let lb = b.ln(); if lb.abs() < 0.1 { continue; }
+                    let got = t.lg[j]; let want = cd(lz).div(cd(lb));
                     out.push(if cfinite(got) && cfinite(lz) && cfinite(lb) { ev(cdist(cd(got), want), &[want.abs()]) } else { bad() }); } }
-            "polar_def" => { let r = z.real.hypot(z.imag); let t = z.imag.atan2(z.real);
-                for th in [t, t + 2.0 * PI, -t, t - PI] { let got = Cmplx::polar(r, th); let want = CDD { re: DD::prod(r, th.cos()), im: DD::prod(r, th.sin()) };
+            "polar_def" => { let r = z.real.hypot(z.imag); let th0 = z.imag.atan2(z.real);
+                for th in [th0, th0 + 2.0 * PI, -th0, th0 - PI] { let got = Cmplx::polar(r, th); let want = CDD { re: DD::prod(r, th.cos()), im: DD::prod(r, th.sin()) };
                     out.push(if cfinite(got) { ev(cdist(cd(got), want), &[r]) } else { bad() }); } }
-            "polar_rt" => { let (r, t) = (z.abs(), z.arg()); let back = Cmplx::polar(r, t);
+            "polar_rt" => { let (r, th) = (t.abs, t.arg); let back = t.polar; let fresh = Cmplx::polar(r, th);
                 let mut e = if cfinite(back) { ev(cdist(cd(back), cd(z)), &[z.abs()]) } else { bad() };
-                e.range_val = Some(t); out.push(e); }
-            "abs_def" => { let got = z.abs(); let want = DD::from(z.abs_sqr()).sqrt();
+                e.range_val = Some(th); if !same_bits(back, fresh) { e = bad(); } out.push(e); }
+            "abs_def" => { let got = t.abs; let want = DD::from(t.abs_sqr).sqrt();
                 out.push(if got.is_finite() { ev(DD::from(got).sub(want).to_f64().abs(), &[want.to_f64()]) } else { bad() }); }
-            "abs_sqr_def" => { let got = z.abs_sqr(); let want = DD::prod(z.real, z.real).add(DD::prod(z.imag, z.imag));
+            "abs_sqr_def" => { let got = t.abs_sqr; let want = DD::prod(z.real, z.real).add(DD::prod(z.imag, z.imag));
                 out.push(if got.is_finite() { ev(DD::from(got).sub(want).to_f64().abs(), &[want.to_f64()]) } else { bad() }); }
             // exact (bitwise) definitions
-            "conj_def" => { let got = z.conj(); let ok = got.real.to_bits() == z.real.to_bits() && got.imag.to_bits() == (-z.imag).to_bits();
+            "conj_def" => { let got = t.get("conj"); let ok = got.real.to_bits() == z.real.to_bits() && got.imag.to_bits() == (-z.imag).to_bits();
                 out.push(if ok { ev(0.0, &[1.0]) } else { bad() }); }
             "new_def" => { let got = Cmplx::new(z.real, z.imag); let sw = Cmplx::new(z.imag, z.real);
                 let ok = got.real.to_bits() == z.real.to_bits() && got.imag.to_bits() == z.imag.to_bits() && sw.real.to_bits() == z.imag.to_bits() && sw.imag.to_bits() == z.real.to_bits();
@@ -271,6 +343,18 @@ fn amp_at(amp: &str, z: Cmplx) -> f64 {
         other => { eprintln!("TOOL-ERROR cfun: unknown amplification {}", other); std::process::exit(2) }
     }
 }
+/// exponents next to every integer -3..3 and next to +-0.5, +-1.5: k +- (1 ulp, 1e-15, 1e-12, 1e-9, 4e-9, 1e-8, 1e-7, 1e-6)
+const NEAR_CENTRES: [f64; 11] = [-3.0, -2.0, -1.0, 0.0, 1.0, 2.0, 3.0, -1.5, -0.5, 0.5, 1.5];
+fn near_exponents() -> Vec<f64> {
+    let mut v = Vec::new();
+    for k in NEAR_CENTRES {
+        let up = if k == 0.0 { f64::MIN_POSITIVE } else { f64::from_bits(if k > 0.0 { k.to_bits() + 1 } else { k.to_bits() - 1 }) };
+        let dn = if k == 0.0 { -f64::MIN_POSITIVE } else { f64::from_bits(if k > 0.0 { k.to_bits() - 1 } else { k.to_bits() + 1 }) };
+        v.push(up); v.push(dn);
+        for d in [1e-15, 1e-12, 1e-9, 4e-9, 1e-8, 1e-7, 1e-6] { v.push(k + d); v.push(k - d); }
+    }
+    v
+}
 fn zhex(z: Cmplx) -> String { format!("{}{}", bits(z.real), bits(z.imag)) }
 fn ratio_units(r: f64) -> i64 { if !r.is_finite() { SAT } else { units(r, 1.0) } }
 
@@ -278,16 +362,36 @@ pub fn exec(case: &Value, out: &mut Out) {
     let cid = geti(case, "cid");
     let kind = gets(case, "kind");
     match kind {
-        "start" | "end" => { out.ev(json!({"op": kind, "cid": cid, "pos": 0})); }
+        "start" => { *COVER.lock().unwrap() = [false; 400]; out.ev(json!({"op": kind, "cid": cid, "pos": 0})); }
+        "end" => { let n = COVER.lock().unwrap().iter().filter(|b| **b).count();
+                   out.ev(json!({"op": kind, "cid": cid, "pos": 0, "pairs": n, "decomp": DECOMP.to_vec()})); }
         "rel" => {
             let rel = &case["rel"]; let reg = &case["reg"]; let range = &case["range"];
             let cond = geti(rel, "cond") as f64; let nrand = getu(case, "nrand"); let seed = geti(case, "seed") as u64;
             let pos = geti(case, "pos");
             let mut rng = rng(seed, 1_000_003u64.wrapping_mul(pos as u64));
             let pts = points(reg, &mut rng, nrand);
-            let (mut worst, mut wz, mut range_all, mut n) = (0.0f64, pts[0], true, 0i64);
-            for z in &pts {
-                for e in eval_rel(rel, range, *z, &mut rng, nrand) {
+            let (mut worst, mut wz, mut range_all, mut n, mut repeat) = (0.0f64, pts[0], true, 0i64, true);
+            let rkind = gets(rel, "kind");
+            for (k, z) in pts.iter().enumerate() {
+                // second arguments: the fixed lists always, random ones / the near-integer family for the relation that judges them
+                let mut ws: Vec<Cmplx> = POW_W.iter().map(|p| c(p.0, p.1)).collect(); let mut xs: Vec<f64> = POWF_X.to_vec();
+                let mut bs: Vec<Cmplx> = LOG_B.iter().map(|p| c(p.0, p.1)).collect();
+                match rkind {
+                    "pow_def" => for _ in 0..nrand { let m: f64 = rng.gen_range(0.0..3.0); let t: f64 = rng.gen_range(-PI..PI); ws.push(c(m * t.cos(), m * t.sin())); },
+                    "powf_def" => for _ in 0..nrand { xs.push(rng.gen_range(-3.0..3.0)); },
+                    "log_def" => for _ in 0..nrand { let m: f64 = 10f64.powf(rng.gen_range(-3.0..1.0)); let t: f64 = rng.gen_range(-PI..PI); bs.push(c(m * t.cos(), m * t.sin())); },
+                    "powf_near" => xs = near_exponents(),
+                    "pow_near" => { ws = Vec::new(); for x in near_exponents() { ws.push(c(x, 0.0)); }
+                                    for x in near_exponents().iter().step_by(3) { ws.push(c(*x, 1e-9)); ws.push(c(x.round() * 0.5 + *x * 0.5, -1e-9)); }
+                                    for kc in NEAR_CENTRES { ws.push(c(kc, 1e-9)); ws.push(c(kc, -1e-9)); } }
+                    _ => {}
+                }
+                let key = (pos as u64).wrapping_mul(31).wrapping_add(k as u64 * 7).wrapping_add(seed);
+                let tab = match guarded(|| run_pass(*z, ws, xs, bs, (pos as u64 + k as u64) % 4, key)) { Ok(t) => t,
+                    Err(_) => { n += 1; worst = f64::INFINITY; wz = *z; COVER.clear_poison(); continue; } };
+                if !tab.repeat_ok { repeat = false; wz = *z; }
+                for e in eval_rel(rel, range, *z, &tab) {
                     n += 1;
                     let ratio = if e.err.is_finite() { e.err / (UNIT * e.scale * cond * amp_at(gets(rel, "amp"), *z)) } else { f64::INFINITY };
                     if ratio > worst { worst = ratio; wz = *z; }
@@ -295,7 +399,7 @@ pub fn exec(case: &Value, out: &mut Out) {
                 }
             }
             out.ev(json!({"op": "rel", "cid": cid, "pos": pos, "ri": case["ri"], "gi": case["gi"], "rel": rel["id"], "relkind": rel["kind"], "cond": rel["cond"],
-                          "rangef": range["f"], "rangeclosed": range["loClosed"].as_bool().unwrap_or(true) && range["hiClosed"].as_bool().unwrap_or(true), "amp": rel["amp"], "npts": n, "err_units": ratio_units(worst), "fine": ratio_units(worst * 1e4), "range": range_all, "worst_z": zhex(wz)}));
+                          "rangef": range["f"], "rangeclosed": range["loClosed"].as_bool().unwrap_or(true) && range["hiClosed"].as_bool().unwrap_or(true), "amp": rel["amp"], "npts": n, "err_units": ratio_units(worst), "fine": ratio_units(worst * 1e4), "range": range_all, "repeat": repeat, "worst_z": zhex(wz)}));
         }
         "sqrt_exact" | "powk" => {
             let pos = geti(case, "pos");
@@ -303,7 +407,12 @@ pub fn exec(case: &Value, out: &mut Out) {
             let q = |v: &Value| -> DD { let r = rat_from(v); DD::from(r.n as f64).div(DD::from(r.d as f64)) };
             let want = CDD { re: q(&case["expect"]["re"]), im: q(&case["expect"]["im"]) };
             let cond = geti(case, "cond") as f64; let k = geti(case, "k");
-            let r = guarded(|| if kind == "sqrt_exact" { vec![z.sqrt()] } else { vec![z.pow(&c(k as f64, 0.0)), z.powf(k as f64)] });
+            // the judged call follows a call of the other decomposition family on the same z, and is made twice in a row
+            let mut repeat = true;
+            let r = guarded(|| if kind == "sqrt_exact" { let _ = z.powf(2.0); let (a, a2) = (z.sqrt(), z.sqrt()); (vec![a], same_bits(a, a2)) }
+                               else { let w = c(k as f64, 0.0); let _ = z.ln(); let (a, a2) = (z.pow(&w), z.pow(&w)); let _ = z.sqrt(); let (b, b2) = (z.powf(k as f64), z.powf(k as f64));
+                                      (vec![a, b], same_bits(a, a2) && same_bits(b, b2)) });
+            let r = r.map(|(v, ok)| { repeat = ok; v });
             let (mut worst, mut range_all) = (0.0f64, true);
             match r { Ok(vs) => for g in vs {
                         let ratio = if cfinite(g) { cdist(cd(g), want) / (UNIT * want.abs().max(1.0) * cond) } else { f64::INFINITY };
@@ -311,7 +420,7 @@ pub fn exec(case: &Value, out: &mut Out) {
                         if kind == "sqrt_exact" && !range_ok(&case["range"], g.real) { range_all = false; } },
                       Err(_) => worst = f64::INFINITY }
             out.ev(json!({"op": kind, "cid": cid, "pos": pos, "z": case["z"], "k": k, "expect": case["expect"], "cond": case["cond"],
-                          "npts": if kind == "powk" { 2 } else { 1 }, "err_units": ratio_units(worst), "fine": ratio_units(worst * 1e4), "range": range_all}));
+                          "npts": if kind == "powk" { 2 } else { 1 }, "err_units": ratio_units(worst), "fine": ratio_units(worst * 1e4), "range": range_all, "repeat": repeat}));
         }
         other => { eprintln!("TOOL-ERROR unknown cfun case kind {}", other); std::process::exit(2) }
     }
